@@ -42,7 +42,7 @@ type TEvent struct {
 
 // Fault makes the K-th (1-based) call of Op fail with Err.
 type Fault struct {
-	Op  string `json:"op"`  // write | writev | wr (a write of either kind) | flush | read | close (Close reports an error, the transport is closed all the same)
+	Op  string `json:"op"`  // write | writev | wr (a write of either kind) | flush | read | close (Close reports an error, the transport is closed all the same) | deadline (SetWriteDeadline fails)
 	K   int    `json:"k"`   // 1-based call index of that op
 	Err string `json:"err"` // plain | timeout | neterr | eof
 	// Partial: the failing Write/Writev reports n = 1 together with the error (a write that failed after partial progress)
@@ -102,6 +102,7 @@ type Transport struct {
 	lastPartial bool
 	// write-side calls in progress (Write, Writev, Flush): a transport is not safe for concurrent use, the channel
 	// has to serialise them. overlap describes the first time two of them were in progress at once.
+	writeShut bool // CloseWrite was called on the raw handle
 	wDeadline time.Time
 	// StallWrites: the peer has stopped reading and the send buffer is full: Write/Writev park until the transport is closed
 	StallWrites bool
@@ -592,19 +593,38 @@ var NowFunc = time.Now
 func (t *Transport) SetReadDeadline(d time.Time) error { return nil }
 func (t *Transport) SetWriteDeadline(d time.Time) error {
 	t.mu.Lock()
+	defer t.mu.Unlock()
 	t.record(TEvent{Kind: "deadline"})
+	if err := t.fault("deadline"); err != nil {
+		return err // e.g. the connection was torn down by somebody else meanwhile
+	}
 	t.wDeadline = d
-	t.mu.Unlock()
 	return nil
 }
 
 // deadlineErrLocked: like a real connection, a write-side call made when the armed write deadline has passed fails at once.
 func (t *Transport) deadlineErrLocked() error {
+	if t.writeShut {
+		return &NetErr{Msg: "verif: mock write on a connection whose write side was shut down (CloseWrite)"}
+	}
 	if !t.wDeadline.IsZero() && !NowFunc().Before(t.wDeadline) {
 		return &NetErr{Msg: "verif: mock i/o timeout (write deadline passed)", TO: true}
 	}
 	return nil
 }
-func (t *Transport) RawTransport() interface{} { return nil }
+
+// RawTransport returns a handle that offers CloseWrite like a TCP connection does (half close): after it the
+// write side is shut, Write/Writev/Flush fail.
+func (t *Transport) RawTransport() interface{} { return rawHandle{t} }
+
+type rawHandle struct{ t *Transport }
+
+func (h rawHandle) CloseWrite() error {
+	h.t.mu.Lock()
+	defer h.t.mu.Unlock()
+	h.t.record(TEvent{Kind: "closewrite", Start: h.t.flushed, End: len(h.t.accepted)})
+	h.t.writeShut = true
+	return nil
+}
 
 var _ transport.Transport = (*Transport)(nil)
